@@ -651,7 +651,7 @@ def macroref(g, thorough, count):
 
 SAFE_BODY = ["inc ax", "dec bx", "add dx, 3", "sub ax, bx", "xor bx, dx", "not dx", "mov word [0x200], ax", "mov byte [bx], dl", "print reg",
              "print flags", "push ax", "pop dx", "shl ax, 1", "rcr dx, 3", "neg bx", "cmp ax, dx", "test ax, 1", "stc", "cmc", "xchg ax, dx",
-             "lahf", "sahf", "cbw", "mul bl", "lods byte", "stos word", "mov si, di"]
+             "lahf", "sahf", "cbw", "mul bl", "lods byte", "stos word", "mov si, di", "cli", "sti", "cld", "std", "clc", "CLI", "STI", "nop"]
 
 def run_prog(g, with_int3=False, with_tf=False):
     """structured terminating program: procedures first, forward jumps, bounded LOOPs"""
@@ -706,7 +706,8 @@ def run_prog(g, with_int3=False, with_tf=False):
     if with_tf:
         seq.insert(1, "mov ax, 0x0100\npush ax\npopf")
     seq.append(labels[nblocks] + ":")
-    tail = r.choice(["hlt", "", "print reg", "hlt\nmov ax, 0xDEAD\nprint reg"])
+    tail = r.choice(["hlt", "", "print reg", "hlt\nmov ax, 0xDEAD\nprint reg",
+                     "jmp ZEND\nmov ax, 0xDEAD\nhlt\nZEND:", "cmp ax, ax\njz ZEND\nhlt\nZEND:", "jmp ZE2\nZE1:\nhlt\nZE2:\njmp ZE1"])
     main = "\n".join(seq) + "\n" + tail
     if r.random() < 0.5:
         main = "start:\n" + main
@@ -766,6 +767,17 @@ def cli_cases(g, group, thorough):
             elif end == 2:
                 script += "n"            # premature end of input, last line unterminated
             out.append((flag, src, script))
+        # print commands typed at -i, trap-flag and INT 3 prompts while DS is large
+        for seg in (0x0FFF, 0x1000, 0x8000, 0xF000, 0xFFFF):
+            for cmd in ("print mem :7", "print mem : 0", "print mem 5 : 3", "print mem 16 -> 20", "print reg", "print flags"):
+                body = f"mov ax, {seg}\nmov ds, ax\nmov byte [2], 0x5A\n"
+                out.append(("i", "start:\n" + body + "nop\n", f"n\nn\nn\n{cmd}\nn\n"))
+                out.append(("-", "start:\n" + body + "int 3\nnop\n", f"{cmd}\nn\n"))
+                out.append(("-", "start:\n" + body + "mov ax, 0x0100\npush ax\npopf\nnop\nnop\n", f"{cmd}\nn\n{cmd}\nn\nn\n"))
+        # flag-control instructions while stepping is on through the trap flag
+        for ins in ("cli", "sti", "cld", "std", "clc", "stc", "cmc", "sahf", "lahf"):
+            out.append(("-", f"start:\nmov ax, 0x0300\npush ax\npopf\nnop\n{ins}\nnop\nnop\nprint flags\n", "n\n" * 12))
+            out.append(("i", f"start:\nsti\nnop\n{ins}\nnop\nprint flags\n", "n\n" * 12))
         # the smallest programs, stepped and plain: nothing / one instruction after `start:`, explicit final hlt
         for tiny in ["start:", "start:\n", "start: hlt", "start:\nhlt\n", "start:\nnop", "start:\nprint reg", "x: db 1\nstart:\n", "def f {\n}\nstart:\n",
                      "start:\ninc ax\nhlt", "start:\ninc ax\nhlt\n", "start:\ninc ax\njmp e\nhlt\ne:\n", "start:\nmov ax, 0x0100\npush ax\npopf\nhlt\n",
